@@ -32,7 +32,7 @@ def one(args):
         rr = subprocess.run([os.path.join(V, "check"), p], capture_output=True, text=True, env=dict(os.environ, SS_REPO=base, SS_EVIDENCE=ev), cwd=V)
         if rr.returncode != 0:
             lines = [l.strip() for l in rr.stdout.splitlines() if l.startswith("  rule ") or l.startswith("ANALYSIS-INCOMPLETE")]
-            out.append((p, rr.returncode, lines[:6]))
+            out.append((p, rr.returncode, lines[:int(os.environ.get("BENIGN_LINES", "6"))]))
     shutil.rmtree(base, ignore_errors=True)
     return eid, out, ""
 
